@@ -271,6 +271,7 @@ class EngineSystem:
         self.consumer = None
         self.waiter = None
         self.ext_sent = 0
+        self.slept = 0
 
     # ---- time
     def now_ms(self):
@@ -361,15 +362,26 @@ class EngineSystem:
         self.loop.call_soon(go)
         self.loop.quiesce()
         try:
-            self.log({"e": "run_init", "state": p_state(self.handler._external_adapter.init_state)})
+            import time as _t
+            self.log({"e": "run_init", "state": p_state(self.handler._external_adapter.init_state),
+                      "now": ms(getattr(self, "last_now", _t.time()))})
         except Exception as ex:  # noqa: BLE001
             self.log({"e": "run_init_error", "err": type(ex).__name__})
 
     # ---- what the driver may do now
-    def enabled(self, ext_menu=(), allow_cancel=True, max_ext=3):
+    def enabled(self, ext_menu=(), allow_cancel=True, max_ext=3, batch=False, sleep_ms=0):
         out = []
-        for k in self.rig.open_gates():
+        og = self.rig.open_gates()
+        for k in og:
             out.append(["release", k[0], k[1], k[2], k[3]])
+        if batch:
+            # two bodies resumed in the same loop iteration (no quiescence point in between)
+            for i in range(len(og)):
+                for j in range(len(og)):
+                    if i != j and len(out) < 40:
+                        out.append(["release2"] + list(og[i]) + list(og[j]))
+        if sleep_ms and og and self.outcome is None and self.slept < 3:
+            out.append(["sleep", sleep_ms])      # a step body takes time
         if self.outcome is None and self.handler is not None:
             if self.ext_sent < max_ext:
                 for (ty, target) in ext_menu:
@@ -396,6 +408,15 @@ class EngineSystem:
             if f is not None and not f.done():
                 f.set_result(None)
             self.loop.quiesce()
+        elif name == "release2":
+            for key in (tuple(cmd[1:5]), tuple(cmd[5:9])):
+                f = self.rig.gates.get(key)
+                if f is not None and not f.done():
+                    f.set_result(None)
+            self.loop.quiesce()
+        elif name == "sleep":
+            self.slept += 1
+            self.loop.advance_to(self.loop.time() + cmd[1] / 1000.0)
         elif name == "send":
             ev = E.TYPES[cmd[1]](uid=cmd[2], k=int(cmd[4]) if len(cmd) > 4 else 0)
             target = None if cmd[3] == "*" else cmd[3]
@@ -463,7 +484,7 @@ class EngineSystem:
                 break
         st = json.dumps([last["state"], last["wakeups"], last["buffer"]], sort_keys=True) if last else ""
         return (st, tuple(self.rig.open_gates()), self.ext_sent, self.cancelled, self.outcome is not None,
-                self.now_ms())
+                self.now_ms(), self.slept)
 
     def close(self):
         try:
